@@ -491,6 +491,30 @@ pub enum SignFault {
   DropInput,
 }
 
+#[derive(Clone, Debug, PartialEq, Eq, Serialize, Deserialize)]
+pub struct BatchEtching {
+  pub name: u32,
+  pub spacers: u32,
+  pub divisibility: u8,
+  /// base units
+  pub premine: u64,
+  /// (amount in base units, cap)
+  pub terms: Option<(u64, u64)>,
+  pub turbo: bool,
+  /// the node mines a block every so many polls of the waiting wallet
+  pub mine_every: u32,
+}
+
+#[derive(Clone, Debug, PartialEq, Eq, Serialize, Deserialize)]
+pub enum BatchTarget {
+  /// `sat: <first sat of the k-th cardinal wallet output>` (needs the sat index)
+  Sat(u32),
+  /// `satpoint: <k-th cardinal wallet output>:0`
+  Satpoint(u32),
+  /// `satpoint` of an inscribed wallet output with `reinscribe: true`
+  Reinscribe(u32),
+}
+
 /// A wallet command, resolved against the chain state at execution time
 /// (runes and recipients are selectors).
 #[derive(Clone, Debug, PartialEq, Eq, Serialize, Deserialize)]
@@ -506,8 +530,15 @@ pub enum WalletCmd {
   BurnRune { rune: u32, amount: AmountSel, fee_rate: u32 },
   Mint { rune: u32, fee_rate: u32 },
   Split { outputs: Vec<SplitOut>, fee_rate: u32 },
-  /// `wallet batch`: 0 separate-outputs, 1 shared-output, 2 same-sat
+  /// `wallet batch`: 0 separate-outputs, 1 shared-output, 2 same-sat, 3 satpoints
   Batch {
+    /// an etching in the batch: the node mines while the wallet waits for the
+    /// commitment to mature
+    #[serde(default)]
+    etching: Option<BatchEtching>,
+    /// where to inscribe (same-sat: `sat` / `satpoint`; satpoints: one per entry)
+    #[serde(default)]
+    target: Option<BatchTarget>,
     mode: u8,
     count: u8,
     /// k-th inscriptions held by the wallet (modulo), as parents
